@@ -4,6 +4,7 @@
 import ErgoProofs.Lemmas.ConcReach
 import ErgoProofs.Lemmas.ProgramThm
 import ErgoProofs.Lemmas.ProcBytesThm
+import ErgoProofs.Lemmas.LockFileThm
 namespace Ergo
 open Proc
 
@@ -93,6 +94,38 @@ theorem C02_lock_file_keeps_its_identity (p : List Program.Call)
     (h : Program.writerOK p = true ∨ Program.busyOK p = true ∨ Program.readerOK p = true) :
     ∀ c ∈ p, Program.mutatesLock c = false :=
   Program.lock_identity_kept p h
+
+/-! ### the lock as a file name (ErgoModel.LockFile): `withLock` + `ensureFileExists` call by call, the lock file present or missing -/
+
+/-- any number of processes, the lock file there or not (then several may create it at once), any schedule, any deaths:
+    at most one process is inside a lock section — the abstract `holder` of the process model is the flock on the one inode
+    the name `.ergo/lock` ever has -/
+theorem C02_one_process_inside_whatever_the_lock_file (name : Option Nat) (fresh n : Nat) (s : LockFile.LSys)
+    (h : LockFile.LReachable (LockFile.LSys.init name fresh n) s) {p q : Nat} (hp : s.inside p) (hq : s.inside q) : p = q :=
+  LockFile.exclusive (LockFile.inv_reachable (LockFile.inv_init name fresh n) h) hp hq
+
+/-- the non-blocking flock answers exactly like the guards of the process model's `lockOk` / `lockBusy`: it succeeds iff nobody is inside -/
+theorem C02_flock_succeeds_iff_nobody_inside (name : Option Nat) (fresh n : Nat) (s : LockFile.LSys)
+    (h : LockFile.LReachable (LockFile.LSys.init name fresh n) s) {p i : Nat} (hp : s.procs[p]? = some (LockFile.Ph.opened i)) :
+    s.holder i = none ↔ ∀ q, ¬ s.inside q :=
+  LockFile.flock_free_iff (LockFile.inv_reachable (LockFile.inv_init name fresh n) h) hp
+
+/-- the name, once it exists, keeps its inode for ever (no step of ergo renames onto it or removes it) -/
+theorem C02_lock_name_keeps_its_inode {a s : LockFile.LSys} (h : LockFile.LReachable a s) {i : Nat} (hn : a.name = some i) :
+    s.name = some i :=
+  LockFile.name_kept_reachable h hn
+
+/-- what the hypothesis "never replaced" is worth: were the missing file created under another name and renamed into place
+    (a seeded change did that), two processes could be inside at once -/
+theorem C02_create_by_rename_would_break_exclusion :
+    ∃ s, LockFile.RReachable (LockFile.LSys.init none 7 2) s ∧ s.inside 0 ∧ s.inside 1 :=
+  LockFile.rename_breaks_exclusion
+
+/-- the model's processes move along the automaton the traced programs are checked against (`LockFile.next`, T3) -/
+theorem C02_lock_steps_follow_the_traced_automaton {s t : LockFile.LSys} (h : LockFile.LStep s t) :
+    ∃ (p : Nat) (ph ph' : LockFile.Ph), s.procs[p]? = some ph ∧ t.procs[p]? = some ph' ∧ (∀ q : Nat, q ≠ p → t.procs[q]? = s.procs[q]?) ∧
+      (ph' = LockFile.Ph.crashed ∨ ∃ (k k' : LockFile.Kind) (c : LockFile.LCall), ph.kind = some k ∧ ph'.kind = some k' ∧ LockFile.next k c = some k') :=
+  LockFile.step_follows_next h
 
 /-! ### the same processes over bytes (ErgoModel.ProcBytes: files in ergo's real line format, one `write(2)` per batch, rewrites by rename) -/
 
